@@ -102,6 +102,7 @@ type fnCtx struct {
 }
 
 type frame struct {
+	allCallErrs []callErr // (noownerrors) the error results of the calls executed so far
 	calleeArgs func(int) string // set while the contract of an external callee is applied: its arguments by index
 	lexPos token.Pos // source position of the clause being evaluated: names resolve to the variables lexically in scope there
 	lastMapRange, lastMapRangeKS, lastMapDom0 string // the map iterator most recently created in this frame
@@ -470,7 +471,7 @@ func (e *Engine) genFunction(fn *ssa.Function) (fc *fnCtx, err error) {
 	fc.calledRefs = map[string]bool{}
 	for _, src := range fc.c.allSources() {
 		for _, m := range calledRe.FindAllStringSubmatch(src, -1) {
-			fc.calledRefs[normText(m[1])] = true
+			fc.calledRefs[normText(strings.ReplaceAll(m[1], "\\\"", "\""))] = true
 		}
 	}
 	for text := range fc.calledRefs {
@@ -601,6 +602,24 @@ func (e *Engine) genFunction(fn *ssa.Function) (fc *fnCtx, err error) {
 			}
 			assertHits[i]++
 			fr.oblige(rr.st, "post", label+where, rr.instr.Pos(), t, en.Src)
+		}
+		// "noownerrors": a non-nil error result is the error result of a call on the way here
+		if fc.c.OwnErrors && len(rr.results) > 0 {
+			res := fr.fn.Signature.Results()
+			if isErrorType(res.At(res.Len() - 1).Type()) {
+				reterr := rr.results[len(rr.results)-1]
+				var alts []string
+				for _, ce := range fr.allCallErrs {
+					if fc.ancestors[rr.instr.Block().Index][ce.blk] || ce.blk == rr.instr.Block().Index {
+						alts = append(alts, and(ce.reach, eq(reterr, ce.err)))
+					}
+				}
+				cond := fmt.Sprintf("(= (vtag %s) 0)", reterr)
+				if len(alts) > 0 {
+					cond = or(append([]string{cond}, alts...)...)
+				}
+				fr.oblige(rr.st, "post", "noownerrors"+where, rr.instr.Pos(), cond, "an error this function returns is the error one of its calls returned (it raises none of its own)")
+			}
 		}
 		// error propagation (C17): an error returned by a callee on the way here is not swallowed
 		if fc.c.Propagates && len(rr.results) > 0 {
@@ -1545,6 +1564,18 @@ func (fr *frame) enterLoop(h *ssa.BasicBlock, li *loopInfo, cur *state) {
 		})
 		fc.havocKeys(cur, whole)
 		for text := range fc.calledRefs {
+			// only a call inside the loop can raise its flag there
+			inLoop := false
+			for b := range li.blocks {
+				for _, in := range b.Instrs {
+					if ci, ok := in.(ssa.CallInstruction); ok && fr.anchorText(ci.Pos(), "callfull") == text {
+						inLoop = true
+					}
+				}
+			}
+			if !inLoop {
+				continue
+			}
 			k := calledKey(text)
 			was := fc.hget(cur, k)
 			now := sc.declare("called", "Bool")
@@ -2336,7 +2367,7 @@ func monotone(phi *ssa.Phi, h *ssa.BasicBlock) int {
 }
 
 
-var calledRe = regexp.MustCompile(`called\("([^"]*)"\)`)
+var calledRe = regexp.MustCompile(`called\("((?:[^"\\]|\\.)*)"\)`)
 
 func calledKey(text string) string { return "X|called:" + normText(text) + "|Bool" }
 
